@@ -121,12 +121,18 @@ def run_case(case):
     bths = scared.traces.read_ths_from_ram(samples=bs_all, v=bv_all.reshape(-1, 1))
     mths = scared.traces.read_ths_from_ram(samples=msamples, h=hyp, v=np.zeros((n, 1), dtype='uint8'))
 
+    ok_dt = [d for d in ('uint8', 'int8', 'uint16', 'int16', 'uint32', 'int64') if min(declared) >= np.iinfo(d).min and max(declared) <= np.iinfo(d).max]
+    parts_as = ok_dt[int(rng.integers(len(ok_dt)))] if rng.random() < 0.4 else None
+    if parts_as:
+        t.count('class_list_as_ndarray')
+
     def new_attack():
         cb = scared.Container(bths)
+        parts = np.array(declared, dtype=parts_as) if parts_as else list(declared)
         if kind == 'tstatic':
-            return scared.TemplateAttack(container_building=cb, reverse_selection_function=rsf, model=scared.Value(), partitions=list(declared), precision=prec)
+            return scared.TemplateAttack(container_building=cb, reverse_selection_function=rsf, model=scared.Value(), partitions=parts, precision=prec)
         return scared.TemplateDPAAttack(container_building=cb, reverse_selection_function=rsf, selection_function=asf, model=scared.Value(),
-                                        partitions=list(declared), precision=prec)
+                                        partitions=parts, precision=prec)
 
     info = dict(case=case, K=K, T=T, declared=declared, counts=counts.tolist(), tdtype=tdtype, build_traces=len(bv_all), build_batch=build_bs, n=n, match_batch=match_bs,
                 foreign_build_traces=n_foreign)
